@@ -62,7 +62,10 @@ def gen(tier, seed, shard, nshards):
         qs = []
         for (y, S) in pairs:
             S = [int(v) for v in rng.permutation(S)] if len(S) > 1 and rng.random() < 0.5 else S
-            qs.append({"y": y, "S": S, "form": int(rng.integers(0, 4))})
+            qs.append({"y": y, "S": S, "form": int(rng.integers(0, 7))})
+            if len(S) == 1 and S[0] != 0 and rng.random() < 0.5:
+                # the same target next with the two-element set [a, 0] given as an array of half the width
+                qs.append({"y": y, "S": [S[0], 0], "form": 4})
         yield "dist", {"mean": mean, "cov": cov, "queries": qs, "k": k}
     for k in range(N[tier]["lganm"]):
         if k % nshards != shard:
@@ -97,6 +100,8 @@ def gen(tier, seed, shard, nshards):
 
 
 def _Sform(S, form):
+    if form in (4, 5, 6):
+        return np.array(S, dtype=(np.int32, np.int16, np.uint8)[form - 4])      # index arrays of a narrower integer type
     if form == 1:
         return np.array(S, dtype=int)
     if form == 2 and len(S) == 1:
@@ -118,9 +123,20 @@ def _judge_pair(dist, Fm, Fc, mf, cf, y, S, form, rec, family, sub):
     if y in S:
         rec.count("S:contains-y")
     Su = sorted(set(S))
-    kappa = float(np.linalg.cond(cf[np.ix_(Su, Su)])) if Su else 1.0
-    rel = 1e3 * EPS * kappa
-    if not np.isfinite(rel) or rel > 1e-4:
+    if Su:
+        Css = cf[np.ix_(Su, Su)]
+        kappa2 = float(np.linalg.cond(Css))
+        dd = np.sqrt(np.abs(np.diag(Css)))
+        kappa_s = float(np.linalg.cond(Css / np.outer(dd, dd))) if (dd > 0).all() else float("inf")     # of the correlation matrix
+    else:
+        kappa2 = kappa_s = 1.0
+    # sound regime: guaranteed normwise bound; badly scaled regime: gross errors only (see C05 and DESIGN.md section 8.3)
+    if np.isfinite(kappa2) and 1e3 * EPS * kappa2 <= 1e-4:
+        kappa, rel = kappa2, 1e3 * EPS * kappa2
+    elif np.isfinite(kappa_s) and kappa_s <= 1e6:
+        kappa, rel = kappa_s, 1e-3
+        rec.count("regime:badly-scaled-gross-error-only")
+    else:
         rec.count("too_ill_conditioned")
         return None
     ctx = {"y": y, "S": S, "cond": kappa}
@@ -244,14 +260,16 @@ def judge(family, case, rec):
             rest = [v for v in range(p) if v not in S]
             if rest:
                 T = sorted(set(S) | {int(rng.choice(rest))})
-                kT = float(np.linalg.cond(cf[np.ix_(T, T)]))
-                if 1e3 * EPS * kT <= 1e-4:
+                CT = cf[np.ix_(T, T)]
+                dT = np.sqrt(np.abs(np.diag(CT)))
+                kT = float(np.linalg.cond(CT / np.outer(dT, dT))) if (dT > 0).all() else float("inf")
+                if 1e4 * EPS * kT <= 1e-3:
                     try:
                         m4 = float(dist.mse(y, T))
                         rec.count("meta:monotone")
                         cysT = np.abs(cf[y, T])
                         CinvT = np.abs(np.linalg.inv(cf[np.ix_(T, T)]))
-                        tolT = 1e3 * EPS * kT * (abs(cf[y, y]) + float(cysT @ CinvT @ cysT))
+                        tolT = 1e4 * EPS * kT * (abs(cf[y, y]) + float(cysT @ CinvT @ cysT))
                         if m4 > mse + tol + tolT:
                             rec.violation("C06:mse-increases-with-more-regressors", family, sub,
                                           "mse(y,%s) = %.17g > mse(y,%s) = %.17g" % (T, m4, S, mse), **ctx)
